@@ -6,7 +6,7 @@ Require Import PPLV.gen.Facts_COTree PPLV.Rows.COTree PPLV.Rows.COTreeSpec.
 Require Import PPLV.Rows.Abs PPLV.Rows.Dense PPLV.Rows.Sparse PPLV.Rows.Expr PPLV.Rows.RowsFacts.
 Require PPLV.Rows.DenseProofs PPLV.Rows.SparseProofs PPLV.Rows.ExprProofs.
 Require PPLV.Rows.COTreeBase PPLV.Rows.COTreeSearch PPLV.Rows.COTreeStatic PPLV.Rows.COTreeHint PPLV.Rows.COTreeDens.
-Require PPLV.Rows.COTreeIter PPLV.Rows.COTreeUpdate PPLV.Rows.COTreeMain PPLV.Rows.COTreeEraseLb PPLV.Rows.COTreeFull.
+Require PPLV.Rows.COTreeIter PPLV.Rows.COTreeUpdate PPLV.Rows.COTreeMain PPLV.Rows.COTreeEraseLb PPLV.Rows.COTreeFull PPLV.Rows.COTreeInorder.
 Require PPLV.Rows.C16Final.
 
 (* unstored entries of a sparse row read as zero *)
@@ -119,6 +119,12 @@ Theorem reverse_iteration_refines : forall t, inv t -> 0 < t_size t ->
   COTreeIter.riter_from (S (N.to_nat (t_rsz t))) t (prev_pos t (t_end t)) = rev (abs_tree t).
 Proof. exact C16Final.reverse_iteration_refines_stmt. Qed.
 
+(* the in-order traversal of the complete tree through get_left_child / get_right_child visits the slots
+   1, 2, ..., reserved_size in increasing order: "array order" below IS the in-order of the tree *)
+Theorem inorder_is_array_order : forall d,
+  COTreeInorder.inorder (S (N.to_nat d)) (it_root (2 ^ N.succ d - 1)) =
+  map N.of_nat (seq 1 (N.to_nat (2 ^ N.succ d - 1))).
+Proof. exact C16Final.inorder_is_array_order_stmt. Qed.
 (* erase_element_and_shift_left = erase + decrement of the keys from the returned iterator on *)
 Theorem erase_shift_refines : forall t k, inv t ->
   abs_tree (erase_element_and_shift_left t k) = m_erase_shift k (abs_tree t) /\ inv (erase_element_and_shift_left t k).
